@@ -221,6 +221,7 @@ def apply_plan(full, info, plan, conc):
             return None
         # removing a trailing element shortens the segment; required-ness is untouched (only situational elements removed)
         ei = 0
+        ci = 0                    # (the plan's sub field carried the index of the note, it is not a component position)
         alt = pos
     elif kind == 'UnknownSeg':
         info.insert(si + 1, (0, 'ZZZ', ['X1']))
